@@ -205,4 +205,4 @@ def run(ctx):
     strat = st.fixed_dictionaries({
         'programs': st.lists(st.lists(op_strategy(), min_size=1, max_size=7), min_size=1, max_size=3),
         'schedule': st.lists(st.integers(0, 2), max_size=80)})
-    ctx.run_given('stream', strat, prop_stream, ctx.n(700, 4000))
+    ctx.run_given('stream', strat, prop_stream, ctx.n(700, 12000))
